@@ -8,7 +8,7 @@ from ..core import Report
 from ..ctx import sites, dominates
 from ..frontend import Repo
 from ..model import is_schedule_call
-from ..rules import has_guard
+from ..rules import cell_name, has_guard, locals_by_init, names_augmented
 
 PS = "reactivex/scheduler/periodicscheduler.py"
 NT = "reactivex/scheduler/newthreadscheduler.py"
@@ -45,22 +45,27 @@ def check(repo: Repo, rep: Report) -> None:
     per = repo.fn(PS, "PeriodicScheduler.schedule_periodic.periodic")
     sp = repo.fn(PS, "PeriodicScheduler.schedule_periodic")
     calls = state_threading(rep, per, "PeriodicScheduler")
+    # role: the periodic disposable is the MultipleAssignmentDisposable local that schedule_periodic returns
+    disps = [d for d in locals_by_init(sp, lambda v: isinstance(v, ast.Call) and call_name(v) in ("MultipleAssignmentDisposable", "SerialDisposable"))
+             if any(isinstance(s.node, ast.Return) and u(s.node.value) == d for s in sites(sp))]
+    rep.require(len(disps) == 1, "PeriodicScheduler: returned periodic disposable")
+    disp = disps[0]
     st = u(calls[0].stmt.targets[0]) if calls and isinstance(calls[0].stmt, ast.Assign) else "state"
     nxt = [s for s in sites(per) if is_schedule_call(s.node) and s.node.func.attr == "schedule_relative"]
     ok = len(nxt) == 1 and any(k.arg == "state" and u(k.value) == st for k in nxt[0].node.keywords) and u(nxt[0].node.args[1]) == "periodic" \
         and calls and calls[0].index < nxt[0].index
     rep.ob("P1-state-threading", per, "next tick scheduled with the new state", ok, "the re-scheduled tick does not carry the state returned by the action")
-    ok = calls and has_guard(calls[0].ctx, "disp.is_disposed", False)
+    ok = calls and has_guard(calls[0].ctx, f"{disp}.is_disposed", False)
     rep.ob("P2-stops-on-dispose", per, "action dominated by `not disp.is_disposed`", bool(ok), "a tick runs the action after the periodic disposable was disposed")
-    ok = isinstance(nxt[0].stmt, ast.Assign) and u(nxt[0].stmt.targets[0]) == "disp.disposable" if nxt else False
+    ok = isinstance(nxt[0].stmt, ast.Assign) and u(nxt[0].stmt.targets[0]) == f"{disp}.disposable" if nxt else False
     first = [s for s in sites(sp) if is_schedule_call(s.node) and s.node.func.attr == "schedule_relative"]
-    ok = ok and len(first) == 1 and isinstance(first[0].stmt, ast.Assign) and u(first[0].stmt.targets[0]) == "disp.disposable" and \
-        any(isinstance(s.node, ast.Return) and u(s.node.value) == "disp" for s in sites(sp))
+    ok = ok and len(first) == 1 and isinstance(first[0].stmt, ast.Assign) and u(first[0].stmt.targets[0]) == f"{disp}.disposable" and \
+        any(isinstance(s.node, ast.Return) and u(s.node.value) == disp for s in sites(sp))
     rep.ob("P2-stops-on-dispose", sp, "every tick's schedule is held by the returned disposable", ok,
            "disposing the returned disposable does not cancel the pending tick")
     hs = [h for s in sites(per) if isinstance(s.node, ast.Try) for h in s.node.handlers]
     ok = bool(hs) and all(any(isinstance(x, ast.Raise) and x.exc is None for x in ast.walk(h)) and
-                          any(isinstance(x, ast.Call) and dotted(x.func) == "disp.dispose" for x in ast.walk(h)) for h in hs) \
+                          any(isinstance(x, ast.Call) and dotted(x.func) == f"{disp}.dispose" for x in ast.walk(h)) for h in hs) \
         and calls and bool(calls[0].ctx.tries)
     rep.ob("P3-stops-after-raise", per, "except: disp.dispose(); raise", bool(ok), "an exception raised by the action is swallowed or does not stop the periodic work")
     sec = [s for s in sites(sp) if isinstance(s.node, (ast.Assign, ast.AnnAssign)) and u(s.node.value) == f"self.to_seconds({sp.params[1]})"]
@@ -79,17 +84,23 @@ def check(repo: Repo, rep: Report) -> None:
     run = repo.fn(NT, "NewThreadScheduler.schedule_periodic.run")
     nsp = repo.fn(NT, "NewThreadScheduler.schedule_periodic")
     calls = state_threading(rep, run, "NewThreadScheduler")
-    ok = calls and has_guard(calls[0].ctx, "disposed.is_set()", False) and bool(calls[0].ctx.loops)
+    evs = locals_by_init(nsp, lambda v: isinstance(v, ast.Call) and call_name(v) == "Event")
+    rep.require(len(evs) == 1, "NewThreadScheduler: disposed event")
+    disposed = evs[0]
+    ok = calls and has_guard(calls[0].ctx, f"{disposed}.is_set()", False) and bool(calls[0].ctx.loops)
     rep.ob("P2-stops-on-dispose", run, "action dominated by `not disposed.is_set()` in every iteration", bool(ok), "the loop runs the action after dispose()")
-    dsp = [g for g in nsp.children if g.is_func and any(isinstance(s.node, ast.Call) and dotted(s.node.func) == "disposed.set" for s in sites(g))]
+    dsp = [g for g in nsp.children if g.is_func and any(isinstance(s.node, ast.Call) and dotted(s.node.func) == f"{disposed}.set" for s in sites(g))]
     ok = bool(dsp) and any(isinstance(s.node, ast.Return) and u(s.node.value) == f"Disposable({dsp[0].name})" for s in sites(nsp))
     rep.ob("P2-stops-on-dispose", nsp, "returned disposable sets the disposed event", ok, "disposing the returned disposable does not stop the loop")
     hs = [h for s in sites(run) if isinstance(s.node, ast.Try) for h in s.node.handlers]
     rep.ob("P3-stops-after-raise", run, "no handler around the action (the exception ends the thread)", not hs,
            "an exception raised by the action is caught inside the periodic loop")
-    wait = [s for s in sites(run) if isinstance(s.node, ast.Call) and dotted(s.node.func) == "disposed.wait"]
-    tdef = [s for s in sites(run) if isinstance(s.node, ast.Assign) and u(s.node.targets[0]) == "timeout" and "seconds -" in u(s.node.value)]
-    ok = bool(wait) and u(wait[0].node.args[0]) == "timeout" and bool(tdef) and calls and calls[0].index < tdef[0].index and wait[0].index < calls[0].index
+    wait = [s for s in sites(run) if isinstance(s.node, ast.Call) and dotted(s.node.func) == f"{disposed}.wait"]
+    nsec = locals_by_init(nsp, lambda v: u(v) == f"self.to_seconds({nsp.params[1]})")
+    tv = u(wait[0].node.args[0]) if wait and wait[0].node.args else None
+    tdef = [s for s in sites(run) if isinstance(s.node, ast.Assign) and u(s.node.targets[0]) == tv and isinstance(s.node.value, ast.BinOp)
+            and isinstance(s.node.value.op, ast.Sub) and u(s.node.value.left) in nsec]
+    ok = bool(wait) and tv is not None and bool(tdef) and calls and calls[0].index < tdef[0].index and wait[0].index < calls[0].index
     rep.ob("P4-period", run, "wait(timeout) before each tick; timeout = period - elapsed", ok, "the loop does not wait one period (minus the action's duration) between ticks")
     # EventLoopScheduler
     esp = repo.fn(EL, "EventLoopScheduler.schedule_periodic")
@@ -103,8 +114,11 @@ def check(repo: Repo, rep: Report) -> None:
             state_threading(rep, qt, "QtScheduler")
     # timers
     ta = repo.fn(TM, "observable_timer_duetime_and_period.subscribe.action")
-    inc = [s for s in sites(ta) if isinstance(s.node, ast.AugAssign) and u(s.node.target) == "count" and isinstance(s.node.op, ast.Add) and u(s.node.value) == "1"]
-    em = [s for s in sites(ta) if isinstance(s.node, ast.Call) and dotted(s.node.func) == "observer.on_next" and u(s.node.args[0]) == "count"]
+    cnts = names_augmented(ta, ast.Add)
+    if len(cnts) != 1:
+        cnts = ["?counter"]
+    inc = [s for s in sites(ta) if isinstance(s.node, ast.AugAssign) and cell_name(s.node.target) == cnts[0] and isinstance(s.node.op, ast.Add) and u(s.node.value) == "1"]
+    em = [s for s in sites(ta) if isinstance(s.node, ast.Call) and dotted(s.node.func) == "observer.on_next" and cell_name(s.node.args[0]) == cnts[0]]
     rep.ob("P5-timers", ta, "emit count, then count += 1, every tick", len(inc) == 1 and len(em) == 1 and em[0].index < inc[0].index and not inc[0].ctx.branch,
            "periodic timers do not emit 0, 1, 2, ...")
     tp = repo.fn(TM, "observable_timer_timespan_and_period.subscribe")
